@@ -94,6 +94,8 @@ type Scenario struct {
 	Steps       []Step `json:"steps"`
 	// ServerName: the cache is created with cache.WithServerName (exported as meta/serverName of every target).
 	ServerName string `json:"server_name,omitempty"`
+	// ExcludedMeta: the cache is created with cache.WithExcludedMeta (metadata entries the periodic refresh does not export).
+	ExcludedMeta []string `json:"excluded_meta,omitempty"`
 	// Feeder: how the callers treat the containers of a notification after the call (feeder.go): "" fresh objects
 	// every time, "batch" the update/delete lists live in one re-used backing array per target, "scribble"
 	// everything the caller still owns is re-used for the next notification and overwritten right after the call.
@@ -409,6 +411,9 @@ func genScenario(prop string) func(t *rapid.T) *Scenario {
 		}
 		if prop != "C02" {
 			sc.ServerName = rapid.SampledFrom([]string{"", "", "collector-1"}).Draw(t, "server-name")
+			if rapid.IntRange(0, 5).Draw(t, "excluded-meta") == 3 {
+				sc.ExcludedMeta = rapid.SampledFrom([][]string{{"sync"}, {"connected"}, {"sync", "connected", "connectedAddress"}, {"connectError"}, {"latestTimestamp"}}).Draw(t, "excluded")
+			}
 		}
 		sc.Steps = rapid.SliceOfN(rapid.Custom(genStep(pr, sc.Targets, sc.Threshold)), 1, pr.maxSteps).Draw(t, "steps")
 		if len(sc.Steps) < 12 && rapid.IntRange(0, 3).Draw(t, "longer") > 0 {
